@@ -152,6 +152,33 @@ except UnexpectedToken as e:
         note('eof-coordinates', {'grammar': G3, 'text': 'a = a ;\\na = a', 'engine': 'lalr/custom lexer'}, [e.token.type, e.token.start_pos, e.token.line, e.token.column], ['$END', 12, 2, 5])
 except Exception as e:
     note('custom-lexer-eof', {'grammar': G3}, repr(e), 'UnexpectedToken($END)')
+
+# keywords folded into a regexp terminal: the reported sets still name them (LALR, both lexers); accepts is a subset of expected
+G4 = 'start: "if" NAME | NAME "x" | "1" "2" | "do"+\nNAME: /[a-z]+/\n%ignore " "'
+for l in ('basic', 'contextual'):
+    p4 = Lark(G4, parser='lalr', lexer=l)
+    for s in ['2', '?', 'if 1', 'a 2', 'if ?', '1 ?', '1 if', 'a x x', 'do 1', 'do do ?', 'do x']:
+        evals += 1
+        try:
+            p4.parse(s); continue
+        except UnexpectedToken as e:
+            acc, rep = set(e.accepts), set(e.expected)
+            if not (acc - {'$END'}) <= rep:
+                note('accepts-in-expected', {'grammar': G4, 'text': s, 'engine': 'lalr/' + l}, {'accepts': sorted(acc), 'expected': sorted(rep)}, 'accepts is a subset of expected')
+            elif '$END' in acc and '$END' not in rep:
+                note('accepts-end-in-expected', {'grammar': G4, 'text': s, 'engine': 'lalr/' + l}, {'accepts': sorted(acc), 'expected': sorted(rep)}, 'accepts is a subset of expected ($END included)')
+        except UnexpectedCharacters as e:
+            # every terminal the parser could take next is named as allowed
+            ip = p4.parse_interactive(s[:e.pos_in_stream])
+            try:
+                ip.exhaust_lexer()
+                legal = {a for a in ip.accepts() if a != '$END'}
+            except UnexpectedInput:
+                continue
+            if not legal <= set(e.allowed):
+                note('allowed-complete', {'grammar': G4, 'text': s, 'engine': 'lalr/' + l}, sorted(e.allowed), 'contains ' + str(sorted(legal)))
+        except UnexpectedInput:
+            pass
 res = {'fails': bool(fails), 'evaluations': evals, 'distinct': distinct, 'failures': fails}
 if fails: res.update(input=fails[0]['input'], observed=fails[0]['observed'], required=fails[0]['required'])
 print(json.dumps(res, default=str))
